@@ -7,6 +7,7 @@ import (
 
 	"github.com/go-i2p/common/certificate"
 	"github.com/go-i2p/common/data"
+	"github.com/go-i2p/common/destination"
 	"github.com/go-i2p/common/key_certificate"
 	"github.com/go-i2p/common/keys_and_cert"
 	"github.com/go-i2p/common/router_identity"
@@ -286,5 +287,66 @@ func H_C19_BuilderSequences() {
 	if gerr == nil && got != nil {
 		nd.Cover("both-accepted")
 		nd.Assert(bytes.Equal(got.Bytes(), want.Bytes()), "builder-seq/last-configuration-wins-like-direct-constructor")
+	}
+}
+
+// H_C19_Identities: the wrappers agree with the path through the generic reader: ReadDestination / NewDestinationFromBytes
+// versus ReadKeysAndCert + NewDestination, and ReadRouterIdentity / NewRouterIdentityFromBytes versus ReadKeysAndCert +
+// NewRouterIdentityFromKeysAndCert, on the same input (type bytes free; NULL certificates followed by free trailing
+// bytes): same acceptance, same serialisation, same remainder.
+//
+//verif:props C19
+//verif:witness both-accepted both-rejected
+func H_C19_Identities() {
+	in := kacInput()
+	k, krem, kerr := keys_and_cert.ReadKeysAndCert(in)
+	if nd.Bool() {
+		d, drem, derr := destination.ReadDestination(in)
+		var d2 *destination.Destination
+		var d2err error
+		if kerr == nil {
+			d2, d2err = destination.NewDestination(k)
+		}
+		viaGeneric := kerr == nil && d2err == nil && d2 != nil
+		nd.Assert((derr == nil) == viaGeneric, "ident/dest/same-acceptance")
+		d3, d3rem, d3err := destination.NewDestinationFromBytes(in)
+		nd.Assert((d3err == nil) == (derr == nil), "ident/dest/frombytes-same-acceptance")
+		if derr == nil && viaGeneric {
+			nd.Cover("both-accepted")
+			a, _ := d.Bytes()
+			b, _ := d2.Bytes()
+			nd.Assert(bytes.Equal(a, b), "ident/dest/same-serialisation")
+			nd.Assert(len(drem) == len(krem), "ident/dest/same-remainder")
+			if d3err == nil && d3 != nil {
+				c, _ := d3.Bytes()
+				nd.Assert(bytes.Equal(a, c) && len(d3rem) == len(drem), "ident/dest/frombytes-same-result")
+			}
+		} else {
+			nd.Cover("both-rejected")
+		}
+		return
+	}
+	r, rrem, rerr := router_identity.ReadRouterIdentity(in)
+	var r2 *router_identity.RouterIdentity
+	var r2err error
+	if kerr == nil {
+		r2, r2err = router_identity.NewRouterIdentityFromKeysAndCert(k)
+	}
+	viaGeneric := kerr == nil && r2err == nil && r2 != nil
+	nd.Assert((rerr == nil) == viaGeneric, "ident/ri/same-acceptance")
+	r3, r3rem, r3err := router_identity.NewRouterIdentityFromBytes(in)
+	nd.Assert((r3err == nil) == (rerr == nil), "ident/ri/frombytes-same-acceptance")
+	if rerr == nil && viaGeneric {
+		nd.Cover("both-accepted")
+		a, _ := r.Bytes()
+		b, _ := r2.Bytes()
+		nd.Assert(bytes.Equal(a, b), "ident/ri/same-serialisation")
+		nd.Assert(len(rrem) == len(krem), "ident/ri/same-remainder")
+		if r3err == nil && r3 != nil {
+			c, _ := r3.Bytes()
+			nd.Assert(bytes.Equal(a, c) && len(r3rem) == len(rrem), "ident/ri/frombytes-same-result")
+		}
+	} else {
+		nd.Cover("both-rejected")
 	}
 }
